@@ -432,7 +432,7 @@ def run(tier, seed):
                     break
         return out
     samples = []
-    for kind, want, n in (("all", ('"opt":"purge_delay"', '"opt":"arena_reserve"'), 4), ("long", ('"src":"env"',), 2), ("script", ('"k":"op"', '"k":"clamp"'), 4),
+    for kind, want, n in (("all", ('"opt":"purge_delay","src"', '"opt":"arena_reserve","src"', '"k":"start"'), 3), ("long", ('"opt":"arena_reserve","src"',), 1), ("script", ('"k":"op"', '"k":"clamp"'), 4),
                           ("json", ('"size":100,', '"size":0,'), 3), ("print", ('"k":"chunk"',), 3), ("fmt", ('"k":"fmt"', '"k":"bufout"'), 1)):
         cands = [p for p in R.procs if p["kind"] == kind and p["build"] == "rel"]
         if cands:
